@@ -44,13 +44,16 @@ Record behaviour := mkBehaviour {
   validate_unit_first : bool;      (* append{Range,Sampled}Dimension check the unit BEFORE creating the group *)
   validate_frame_first : bool;     (* createDataFrameDimension checks that the frame is in the block BEFORE creating *)
   reject_nan : bool;               (* comparisons written so that NaN fails: !(x > 0), !(a <= b) *)
-  ro_delete_throws : bool          (* H5Group::removeGroup checks the result of H5Gunlink *)
+  ro_delete_throws : bool;         (* H5Group::removeGroup checks the result of H5Gunlink *)
+  frame_col_strict : bool          (* appendDataFrameDimension(frame, col) refuses col >= #columns (before b527e42: only col > #columns) *)
 }.
 
-Definition code_today : behaviour := mkBehaviour false false false false false false false.
-Definition repaired : behaviour := mkBehaviour true true true true true true true.
+(** the tree as it was pinned / with every fix / as it was before the column-bound fix b527e42 (seven fixes landed) *)
+Definition code_today : behaviour := mkBehaviour false false false false false false false false.
+Definition repaired : behaviour := mkBehaviour true true true true true true true true.
+Definition code_head : behaviour := mkBehaviour true true true true true true true false.
 
-(** SET BY THE COORDINATOR: [code_today] while the defects are open, [repaired] once the fix: commits landed *)
+(** SET BY THE COORDINATOR: the behaviour of /repo HEAD; [repaired] = every fix: commit has landed *)
 Definition current_behaviour : behaviour := repaired.
 
 (* ------------------------------------------------------------------------------------------ *)
@@ -206,6 +209,10 @@ Inductive op :=
 | ALabel (l : option string)
 | AUnit (u : option string)
 | AData (v : list F64)
+| SAt (i : Z) (k : Z)                               (* SampledDimension::operator[] *)
+| DimsOfKind (k : kind)                             (* DataArray::dimensions(filter: dimensionType() == k) *)
+| RangeOfArray                                      (* RangeDimension(const DataArray&) *)
+| FTicks (i : Z) (col : option Z) (resize : bool) (vsize offset : Z)   (* DataFrameDimension::ticks<T> *)
 | Reopen (readonly : bool)
 | DropForeignBlock                 (* File::deleteBlock("b2") *)
 | RecreateFrame (k : nat)          (* deleteDataFrame(name of local frame k); createDataFrame(same name, same columns) *)
@@ -227,7 +234,11 @@ Record obs := mkObs {
   o_data : option (list F64)               (* the array read as doubles (1-D numeric arrays only) *)
 }.
 
+(** a data-frame cell as a tick: integer (also Bool read as an integer), double, string *)
+Inductive cellv := CI (z : Z) | CD (d : F64) | CS (s : string).
+
 Inductive ans :=
+| ACells (l : list cellv)
 | ADone
 | AIndex (i : Z)
 | ABool (b : bool)
@@ -273,6 +284,44 @@ Definition fq_unit fs fo ci col : res string := bind (fq_col fs fo ci col) (fun 
 Definition fq_type fs fo ci col : res dtype := bind (fq_col fs fo ci col) (fun x => Ok (snd x)).
 Definition fq_size fs fo : res Z := bind (frame_of fs fo) (fun fr => Ok (fr_rows fr)).
 Definition fq_name fs fo : res string := bind (frame_of fs fo) (fun fr => Ok (fr_name fr)).
+
+(** the harness fills every frame at creation: cell (row r, column c) is r*10+c for the integer types, r*10+c+0.5
+    for Double, "r<r>c<c>" for String (rows and columns below 10 in the tie), (r+c) odd for Bool *)
+Definition fhalf : F64 := ofME 1 (-1).
+Definition digit_str (z : Z) : string := String (Ascii.ascii_of_N (48 + Z.to_N z)) EmptyString.
+Definition cell_of (ty : dtype) (r c : Z) : cellv :=
+  match ty with
+  | NDArr.TDouble | NDArr.TFloat => CD (fadd (ofZ (r * 10 + c)) fhalf)
+  | NDArr.TString => CS ("r" ++ digit_str r ++ "c" ++ digit_str c)
+  | NDArr.TBool => CI ((r + c) mod 2)
+  | _ => CI (r * 10 + c)
+  end.
+Definition zseq (off n : Z) : list Z := map (fun k => off + Z.of_nat k) (seq 0 (Z.to_nat n)).
+Definition cells (ty : dtype) (c off n : Z) : list cellv := map (fun r => cell_of ty r c) (zseq off n).
+
+(** DataFrameDimension::ticks<T>(vector(vsize), col, resize, offset): the frame, the default column, the bound of the
+    column index, then DataFrame::readColumn(col, ticks, RESIZE, offset): resize -> all rows from [offset] (offset > rows
+    is out of bounds), else as many as the vector holds (reading past the last row is an HDF5 error, unless nothing is read).
+    [honour] = false IS THE CODE: the call passes a literal [true] whatever the caller said, i.e. it always resizes and
+    returns every row from the offset.  The documentation of ticks<T> promises [honour] = true ("if false, the size of
+    the vector is taken as the number of ticks to read"); that rule is kept here only for the remark theorem
+    [ticks_documented_rule_differs] - a documentation discrepancy, not part of what C13 demands. *)
+Definition frame_ticks (honour : bool) (fs : list frame) (fo : option nat) (ci col : option Z)
+                       (resize : bool) (vsize offset : Z) : res (list cellv) :=
+  bind (frame_of fs fo) (fun fr =>
+    match pick_col ci col with
+    | None => Err E_OutOfBounds
+    | Some c =>
+        match nth_col fr c with
+        | None => Err E_OutOfBounds
+        | Some x =>
+            if (if honour then resize else true) then
+              if fr_rows fr <? offset then Err E_OutOfBounds else Ok (cells (snd x) c offset (fr_rows fr - offset))
+            else
+              if (0 <? vsize) && (fr_rows fr <? offset + vsize) then Err E_H5     (* a selection of nothing has no bound *)
+              else Ok (cells (snd x) c offset vsize)
+        end
+    end).
 
 Definition olabels (l : option (list string)) : list string := match l with Some x => x | None => [] end.
 
@@ -419,7 +468,8 @@ Definition fref_cols (s : state) (f : fref) : res (list string) :=
 
 Definition append_frame_idx (b : behaviour) (s : state) (f : fref) (col : Z) : R :=
   match fref_cols s f with
-  | Ok cs => if zlen cs <? col then (s, Err E_OutOfBounds)       (* sic: [>], col = #columns passes *)
+  | Ok cs => if (if frame_col_strict b then zlen cs <=? col else zlen cs <? col)                       (* SWITCH *)
+             then (s, Err E_OutOfBounds)       (* head: [>], col = #columns passes *)
              else append_frame_be b s f (Some col)
   | Err e => (s, Err e)
   | UB w => (s, UB w)
@@ -659,12 +709,34 @@ Definition recreate_frame (s : state) (k : nat) : R :=
                (frames s) (ro s) (List.app (foreign s) [Some (fr, false)]) (b2_alive s), Ok ADone)
   end.
 
+(** SampledDimension::operator[](k) = positionAt(k) = k * interval + offset (no offset: 0.0) *)
+Definition s_at (s : state) (i k : Z) : R :=
+  with_dim s i KSampled (fun d => match d with
+    | DSampled x off _ _ => (s, Ok (ATick (fadd (fmul (ofZ k) x) (match off with Some o => o | None => fzero end))))
+    | _ => (s, Err E_Incompatible) end).
+
+Definition f_ticks (s : state) (i : Z) (col : option Z) (resize : bool) (vsize offset : Z) : R :=
+  with_dim s i KFrame (fun d => match d with
+    | DFrame fo ci => (s, bind (frame_ticks false (frames s) fo ci col resize vsize offset) (fun l => Ok (ACells l)))
+    | _ => (s, Err E_Incompatible) end).
+
+(** RangeDimension(const DataArray&): more than one dimension -> InvalidRank, otherwise an EMPTY handle *)
+Definition range_of_array (s : state) : R :=
+  if Nat.ltb 1 (a_rank s) then (s, Err E_InvalidRank) else (s, Ok (AKind None)).
+
 Definition get_dim (s : state) (i : Z) : R :=
   (s, Ok (AKind (match lookup i (dims s) with Some d => Some (kind_of d, i) | None => None end))).
 
 (** DataArray::dimensions(): getDimension(i+1) for i < count, absent ones are skipped *)
 Definition all_dims (s : state) : R :=
   (s, Ok (ADims (flat_map (fun i => match lookup i (dims s) with Some d => [(i, kind_of d)] | None => [] end)
+                          (zrange (count s))))).
+
+(** dimensions(filter): the same walk, the filter applied to every descriptor found *)
+Definition dims_of_kind (s : state) (k : kind) : R :=
+  (s, Ok (ADims (flat_map (fun i => match lookup i (dims s) with
+                                    | Some d => if kind_eqb (kind_of d) k then [(i, kind_of d)] else []
+                                    | None => [] end)
                           (zrange (count s))))).
 
 Definition dstep (b : behaviour) (o : op) (s : state) : R :=
@@ -700,6 +772,10 @@ Definition dstep (b : behaviour) (o : op) (s : state) : R :=
   | ALabel l => arr_label s l
   | AUnit u => arr_unit s u
   | AData v => arr_data s v
+  | SAt i k => s_at s i k
+  | DimsOfKind k => dims_of_kind s k
+  | RangeOfArray => range_of_array s
+  | FTicks i c rs vs off => f_ticks s i c rs vs off
   | Reopen r => reopen s r
   | DropForeignBlock => drop_foreign s
   | RecreateFrame k => recreate_frame s k
@@ -847,7 +923,7 @@ Definition sp_step (o : op) (s : sstate) : sstate * sres :=
       then (s, SReject) else s_append s DAlias
   | AppendFrameIdx f c =>
       match s_fref_cols s f with
-      | Some cs => if zlen cs <? c then (s, SReject) else s_append_frame s f (Some c)
+      | Some cs => if zlen cs <=? c then (s, SReject) else s_append_frame s f (Some c)     (* the column has to exist *)
       | None => (s, SReject)
       end
   | AppendFrameName f n =>
@@ -943,6 +1019,16 @@ Definition sp_step (o : op) (s : sstate) : sstate * sres :=
       | Err _ => (s_with_data s (repeat (NDArr.zero_of (q_ty s)) (List.length v)), SReject)
       | UB _ => (s, SAny)
       end
+  | SAt i k => s_read s i KSampled (fun d => match d with
+      | DSampled x off _ _ => Ok (ATick (fadd (fmul (ofZ k) x) (match off with Some o => o | None => fzero end)))
+      | _ => Err "" end)
+  | DimsOfKind k =>
+      (s, SOk (ADims (filter (fun p => kind_eqb (snd p) k)
+                             (map (fun p => (fst p, kind_of (snd p))) (combine (zrange (s_count s)) (q_dims s))))))
+  | RangeOfArray => if Nat.ltb 1 (q_rank s) then (s, SReject) else (s, SOk (AKind None))
+  | FTicks i col rs vs off => s_read s i KFrame (fun d => match d with
+      | DFrame fo ci => bind (frame_ticks false (q_frames s) fo ci col rs vs off) (fun l => Ok (ACells l))   (* as implemented *)
+      | _ => Err "" end)
   | Reopen r => (mkS (q_dims s) (q_label s) (q_unit s) (q_data s) (q_ty s) (q_rank s) (q_frames s) r
                      (map keep_persistent (q_foreign s)) (q_b2 s), SOk ADone)
   | DropForeignBlock =>
